@@ -1,5 +1,5 @@
 """C02 — decoder results do not depend on how input and output are chunked (structural clauses D1–D6)."""
-import t_dst, r_account, r_preamble, r_resume, r_iso, r_inv, r_inputempty
+import t_dst, r_account, r_preamble, r_resume, r_iso, r_inv, r_inputempty, r_asciicopy
 import p_c10, p_c01, r_surr, r_pendcount, r_requeue
 
 MANIFEST = {
@@ -45,6 +45,7 @@ def run(rep, facts, tier):
             p_c10.helpers(rep, f, c, sink)
         r_iso.run(rep, f, c, 'R-ISO', '::decode_to_utf8_raw', '::decode_to_utf16_raw', 8)
         r_inv.run(rep, f, c, 'R-INV')
+        r_asciicopy.run(rep, f, c, want=lambda n: 'copy_ascii_from_' in n)
         r_pendcount.run(rep, f, c)
         n = r_requeue.run(rep, f, c)
         rep.floor('R-REQUEUE', 'Malformed(len, after>0) paths with re-queued bytes', n, 8, c)
